@@ -256,9 +256,12 @@ class StoreDriver:
                     )
                     break
                 m = m2
+            # the key describes the state the history itself reaches: it is taken BEFORE the full
+            # observation, which (reading every index, looking every identifier up) changes caches
+            # and flags of this one replayed object only - successors are rebuilt from scratch
+            key = self._key(m, store)
             if not vio:
                 vio += self._observe(m, store, path, history)
-            key = self._key(m, store)
         finally:
             try:
                 if store is not None:
